@@ -30,6 +30,7 @@ AMPS = np.array([1.0, 2.5, -0.75, 4.0, 0.5, 3.25, -1.5, 2.0])
 
 
 def brute(infr, inam, edges, mode):
+    infr = np.asarray(infr, dtype=float)
     T, M = infr.shape
     nb = len(edges) - 1
     H = np.zeros((nb, T))
@@ -60,8 +61,9 @@ def compare(ctx, infr, inam, edges, mode, case, tag):
     H, H1 = brute(infr, inam, edges, mode)
     tot = np.abs(inam ** 2 if mode == 'energy' else inam).sum() or 1.0
     tol = 1e-12 * tot
-    inr = (infr >= edges[0]) & (infr < edges[-1])
-    onedge = np.isin(infr, edges)
+    infr64 = np.asarray(infr, dtype=float)
+    inr = (infr64 >= edges[0]) & (infr64 < edges[-1])
+    onedge = np.isin(infr64, edges)
     ctx.case(digest(infr, inam, edges, mode), bool(inr.any() and ((~inr).any() or onedge.any())))
     f0, a0 = infr.copy(), inam.copy()
     dense = SP.hilberthuang(infr, inam, edges, mode=mode)
@@ -113,6 +115,9 @@ def compare(ctx, infr, inam, edges, mode, case, tag):
         ctx.count('with_value_on_edge')
 
 
+relayout = gens.relayout
+
+
 def shapes_for(k):
     return [(T, k // T) for T in range(1, k + 1) if k % T == 0]
 
@@ -140,9 +145,18 @@ def run_shard(ctx):
         if rng.random() < .3:
             inam[rng.integers(0, T), :] = 0.0
         mode = gens.pick(rng, ['energy', 'amplitude'])
-        case = {'kind': 'hht', 'infr': infr, 'inam': inam, 'edges': edges, 'mode': mode}
+        # "all frequency/amplitude arrays": memory layout and frequency dtype are the caller's business
+        fr = rng.random()
+        if fr < .15:
+            infr = infr.astype(np.float32)   # (integer-typed frequency arrays are not generated: hilberthuang_1d cannot mark
+            #                                   out-of-range entries of an integer array as NaN; instantaneous frequencies are floats)
+        infr, lay1 = relayout(rng, infr)
+        inam, lay2 = relayout(rng, inam)
+        ctx.count('layout:%s/%s' % (lay1, lay2))
+        ctx.count('freq_dtype:%s' % infr.dtype)
+        case = {'kind': 'hht', 'infr': infr, 'inam': inam, 'edges': edges, 'mode': mode, 'layouts': [lay1, lay2], 'freq_dtype': str(infr.dtype)}
         try:
-            compare(ctx, infr.copy(), inam.copy(), edges, mode, case, 'random')
+            compare(ctx, infr, inam, edges, mode, case, 'random')
         except Exception as e:
             ctx.violation('exception:%s' % type(e).__name__, 'spectrum routine raised %s: %s' % (type(e).__name__, str(e)[:120]), case)
         if i % 10 == 0:
@@ -204,7 +218,12 @@ def finalize(agg, tier):
 
 def replay(ctx, case):
     if case['kind'] == 'hht':
-        compare(ctx, np.asarray(case['infr'], float), np.asarray(case['inam'], float), np.asarray(case['edges'], float), case['mode'], case, 'replay')
+        infr = np.asarray(case['infr']).astype(case.get('freq_dtype', 'float64'))
+        inam = np.asarray(case['inam'], float)
+        if case.get('layouts'):
+            infr, _ = relayout(None, infr, case['layouts'][0])
+            inam, _ = relayout(None, inam, case['layouts'][1])
+        compare(ctx, infr, inam, np.asarray(case['edges'], float), case['mode'], case, 'replay')
     else:
         from emd import spectra as SP
         e, c = SP.define_hist_bins(case['lo'], case['hi'], case['nbins'], scale=case['scale'])
